@@ -131,38 +131,99 @@ def run_model(cases):
     return lines
 
 
-def run_impl(exe, cases, per_case_timeout=20.0, cwd=None, env=None, extra_args=()):
-    """Feed cases to the Go driver.  The driver answers each line before reading the
-    next; if the process dies (unrecoverable panic in a goroutine) or hangs, the case
-    is recorded as 'crash -' / 'timeout -' and a fresh process continues."""
+def _run_alone(exe, case, per_case_timeout, cwd, env, extra_args):
+    try:
+        p = subprocess.run([exe] + list(extra_args), input=(case + "\nsettle\n").encode(), stdout=subprocess.PIPE,
+                           stderr=subprocess.PIPE, cwd=cwd, env=env, timeout=per_case_timeout + 5)
+    except subprocess.TimeoutExpired:
+        return "timeout -"
+    lines = p.stdout.decode("utf-8", "replace").split("\n")
+    if len(lines) >= 2 and lines[1] == "settled" and p.returncode == 0:
+        return lines[0]
+    return "crash -"
+
+
+def run_impl(exe, cases, per_case_timeout=10.0, cwd=None, env=None, extra_args=()):
+    """Feed cases to the Go driver one at a time.  The driver answers each line before
+    reading the next; if the process dies (unrecoverable panic in a goroutine) the case
+    is recorded as 'crash -', if it does not answer within the deadline as 'timeout -',
+    and a fresh process continues with the next case."""
+    import threading, queue
     results = []
-    i = 0
-    n = len(cases)
     crashes = []
+    n = len(cases)
+    i = 0
     while i < n:
         p = subprocess.Popen([exe] + list(extra_args), stdin=subprocess.PIPE, stdout=subprocess.PIPE,
-                             stderr=subprocess.PIPE, cwd=cwd, env=env)
-        chunk = cases[i:]
-        try:
-            out, errb = p.communicate(("\n".join(chunk) + "\n").encode(),
-                                      timeout=max(60.0, per_case_timeout * min(len(chunk), 50) + 0.02 * len(chunk)))
-            timed = False
-        except subprocess.TimeoutExpired:
-            p.kill()
-            out, errb = p.communicate()
-            timed = True
-        lines = out.decode("utf-8", "replace").split("\n")
-        if lines and lines[-1] == "":
-            lines.pop()
-        # a partially written last line belongs to a crashed case
-        got = lines[:len(chunk)]
-        results += got
-        i += len(got)
-        if i < n and (p.returncode != 0 or timed or len(got) < len(chunk)):
-            kind = "timeout -" if timed else "crash -"
-            crashes.append((i, kind, errb.decode("utf-8", "replace")[-1500:]))
-            results.append(kind)
+                             stderr=subprocess.PIPE, cwd=cwd, env=env, bufsize=0)
+        q = queue.Queue()
+
+        def reader(pr=p, qq=q):
+            for line in pr.stdout:
+                qq.put(line)
+            qq.put(None)
+
+        errbuf = []
+
+        def ereader(pr=p):
+            errbuf.append(pr.stderr.read())
+
+        threading.Thread(target=reader, daemon=True).start()
+        threading.Thread(target=ereader, daemon=True).start()
+        # pipeline a window of cases to amortise round trips
+        WINDOW = 64
+        sent = i
+        dead = False
+        while i < n and not dead:
+            while sent < n and sent - i < WINDOW:
+                try:
+                    p.stdin.write((cases[sent] + "\n").encode())
+                    sent += 1
+                except (BrokenPipeError, OSError):
+                    break
+            try:
+                line = q.get(timeout=per_case_timeout)
+            except queue.Empty:
+                p.kill()
+                results.append("timeout -")
+                crashes.append((i, "timeout", ""))
+                i += 1
+                dead = True
+                break
+            if line is None:
+                p.wait()
+                time.sleep(0.05)
+                etxt = (errbuf[0] if errbuf else b"").decode("utf-8", "replace")[-1500:]
+                # attribute the crash: re-run the case alone; a goroutine left behind by an
+                # earlier (massive) case may have panicked while this one was running
+                alone = _run_alone(exe, cases[i], per_case_timeout, cwd, env, extra_args)
+                if alone in ("crash -", "timeout -"):
+                    results.append(alone)
+                    crashes.append((i, "crash", etxt))
+                else:
+                    results.append(alone)
+                    for j in range(i - 1, max(-1, i - 70), -1):
+                        if cases[j].startswith("m") or " massive" in cases[j]:
+                            for _ in range(3):
+                                if _run_alone(exe, cases[j], per_case_timeout, cwd, env, extra_args) == "crash -":
+                                    results[j] = "crash -"
+                                    crashes.append((j, "late crash", etxt))
+                                    break
+                            if results[j] == "crash -":
+                                break
+                    else:
+                        crashes.append((i, "unattributed crash", etxt))
+                i += 1
+                dead = True
+                break
+            results.append(line.decode("utf-8", "replace").rstrip("\n"))
             i += 1
+        if not dead:
+            try:
+                p.stdin.close()
+            except OSError:
+                pass
+            p.wait()
     return results, crashes
 
 
